@@ -1311,6 +1311,34 @@ func stripSensitiveHeadersOnRedirect(req *Request, initialHost []byte, redirectU
 	req.Header.Del(HeaderProxyAuthenticate)
 	req.Header.Del(HeaderProxyAuthorization)
 	req.Header.Del(HeaderWWWAuthenticate)
+
+	if !req.Header.disableNormalizing {
+		return
+	}
+	// With header name normalizing disabled Del matches names byte for byte,
+	// so a caller-supplied 'authorization' or 'COOKIE2' would survive the
+	// calls above. Field names are case-insensitive: drop every spelling.
+	var drop [][]byte
+	for k := range req.Header.All() {
+		for _, name := range sensitiveRedirectHeaders {
+			if caseInsensitiveCompare(k, s2b(name)) {
+				drop = append(drop, append([]byte(nil), k...))
+				break
+			}
+		}
+	}
+	for _, k := range drop {
+		req.Header.DelBytes(k)
+	}
+}
+
+var sensitiveRedirectHeaders = []string{
+	HeaderAuthorization,
+	HeaderCookie,
+	HeaderCookie2,
+	HeaderProxyAuthenticate,
+	HeaderProxyAuthorization,
+	HeaderWWWAuthenticate,
 }
 
 // shouldStripSensitiveHeadersOnRedirect defines the trust boundary for
@@ -1585,7 +1613,7 @@ func (c *HostClient) Do(req *Request, resp *Response) error {
 		switch {
 		case c.RetryIfErrUpstream != nil:
 			upstream := ""
-			if resp.RemoteAddr() != nil {
+			if resp != nil && resp.RemoteAddr() != nil {
 				upstream = resp.RemoteAddr().String()
 			}
 			resetTimeout, retry = c.RetryIfErrUpstream(req, attempts, err, upstream)
